@@ -5954,12 +5954,14 @@ impl Machine {
                             _ => CompilationTarget::Module(module_name),
                         };
 
-                        let skeleton = self
+                        // the predicate may have been abolished since the clause
+                        // list of this retract/1 was collected.
+                        let target_pos = self
                             .indices
                             .get_predicate_skeleton_mut(&compilation_target, &key)
-                            .unwrap();
+                            .and_then(|skeleton| skeleton.target_pos_of_clause_clause_loc(l));
 
-                        if let Some(n) = skeleton.target_pos_of_clause_clause_loc(l) {
+                        if let Some(n) = target_pos {
                             let r = self
                                 .machine_st
                                 .store(self.machine_st.deref(self.machine_st.registers[5]));
@@ -6000,12 +6002,14 @@ impl Machine {
                             _ => CompilationTarget::Module(module_name),
                         };
 
-                        let skeleton = self
+                        // the predicate may have been abolished since the clause
+                        // list of this retract/1 was collected.
+                        let target_pos = self
                             .indices
                             .get_predicate_skeleton_mut(&compilation_target, &key)
-                            .unwrap();
+                            .and_then(|skeleton| skeleton.target_pos_of_clause_clause_loc(l));
 
-                        if let Some(n) = skeleton.target_pos_of_clause_clause_loc(l) {
+                        if let Some(n) = target_pos {
                             let r = self
                                 .machine_st
                                 .store(self.machine_st.deref(self.machine_st.registers[5]));
